@@ -447,6 +447,8 @@ def s9(ctx, rep):
 
 
 def run(ctx, rep, tier="quick"):
+    from . import c03
+    c03.bracket_offset(ctx, rep, "S3")
     s1(ctx, rep)
     s2(ctx, rep)
     s2b(ctx, rep)
